@@ -119,14 +119,17 @@ func Inter[K comparable](comparator bcomparator.Comparator[K], zs ...*Set[K]) *S
 	}
 	for _, n := range zs[0].Range(0, -1) {
 		ok := true
+		score := n.Score
 		for _, z := range zs[1:] {
-			if !z.Contains(n.Value) {
+			s, exists := z.Score(n.Value)
+			if !exists {
 				ok = false
 				break
 			}
+			score += s
 		}
 		if ok {
-			dest.AddB(n.Score, n.Value)
+			dest.AddB(score, n.Value)
 		}
 	}
 	return dest
